@@ -227,8 +227,11 @@ func runC09(rc *RunCtx) {
 						panic(fmt.Sprintf("snapshot install: %v", err))
 					}
 					if got := raft.VerifFSMIndex(r.fsm); got != last {
-						if np, ok := rewindTo(cmds, pos, got); ok {
-							pos = np
+						// (non-final chunks do not move the state machine's index: a
+						// snapshot taken inside a chunked command reports the index
+						// before it. Raft goes on with the entry after the snapshot's
+						// index - the parts received so far travel in the snapshot)
+						if _, ok := rewindTo(cmds, pos, got); ok {
 							s.Probe("snapshot_inside_chunked_value")
 						} else {
 							s.Violate("C09", "snapshot-install-wrong-index", nil, "replica %d at index %d after installing a snapshot taken at %d", ri, got, last)
